@@ -1,6 +1,7 @@
 """C07 - lowered code is well formed: schema-valid with intact, unique jump targets.
 Monitor: post-condition contract on parse_script (schema + per-scope label facts) + lint label warnings."""
 import itertools
+import json
 import random
 
 from .. import gen_prog, layout
@@ -108,12 +109,23 @@ def run_watch(prog, acc, api, kind):
     for pat in ([1, 0, 1, 1, 0, 0, 1, 0], [0, 1, 0, 0, 1, 1, 0, 1], [1, 1, 0, 1, 0, 0, 0, 1]):
         try:
             # (the third run is a debug-mode run with a log function: the same jumps, the same labels)
-            bare_script.execute_script(bare_script.parse_script(text), {'globals': {'nx': gen_prog.make_nx(pat)}, 'maxStatements': 3000,
+            watched = bare_script.parse_script(text)
+            before = json.dumps(watched, sort_keys=True)
+            bare_script.execute_script(watched, {'globals': {'nx': gen_prog.make_nx(pat)}, 'maxStatements': 3000,
                                                                          'logFn': (lambda m: None) if pat[1] == 1 and pat[0] == 1 else None, 'debug': pat[1] == 1 and pat[0] == 1})
         except Exception as exc:  # pylint: disable=broad-except
             if 'Unknown jump label' in str(exc):
                 acc.violation('unknown-jump-label-at-run-time', f'{exc}\n{text}', {'text': text})
                 return
+        # the model a run leaves behind is the model the parser returned: still schema-valid, unchanged
+        try:
+            model.validate_script(watched)
+            changed = json.dumps(watched, sort_keys=True) != before
+        except Exception as exc:  # pylint: disable=broad-except
+            changed = f'{type(exc).__name__}: {str(exc)[:200]}'
+        if changed:
+            acc.violation('model-changed-by-execution', f'{changed if isinstance(changed, str) else "the model differs from the parsed one"}\n{text}', {'text': text})
+            return
         acc.count('executions_watched')
 
 
@@ -144,7 +156,7 @@ def three_functions(chain):
     f2 = ['func', 'fn1', ['p0'], False, gen_prog.build_shape(chain[::-1], 'function')[0][4]]
     g = gen_prog.build_shape(chain, 'global')
     f3 = ['func', 'fn2', [], False, [gen_prog.LOG('x')]]
-    return [f1, f2] + g[:-1] + [f3] + [['expr', gen_prog.C('fn0', gen_prog.N(1))], ['expr', gen_prog.C('fn1', gen_prog.N(1))]]
+    return [f1, f2] + g[:-1] + [f3] + [['expr', gen_prog.C('fn0', gen_prog.N(1))], ['expr', gen_prog.C('fn1', gen_prog.N(1))], ['expr', gen_prog.C('fn2')], ['expr', gen_prog.C('fn2')]]
 
 
 def run_shard(spec, acc):
@@ -168,6 +180,7 @@ def run_shard(spec, acc):
                              ['while', gen_prog.C('nx'), [f[0], ['if', [[gen_prog.C('nx'), [['continue']]]], None]]]):
                     check_text('\n'.join(pp([wrap] + f[1:])), acc, api, con, True, 'function-in-block')
                 run_watch(gen_prog.build_shape(chain, 'global'), acc, api, 'shape')
+                run_watch(three_functions(chain), acc, api, 'three-functions')
                 from .c01 import drain_loops
                 run_watch(gen_prog.strip_logs(drain_loops(gen_prog.build_shape(chain, 'function'))), acc, api, 'empty-bodies')
                 run_watch(gen_prog.strip_logs(drain_loops(gen_prog.build_shape(chain, 'global'))), acc, api, 'empty-bodies')
